@@ -693,6 +693,14 @@ var (
 func (c *DnsController) cacheKey(qname string, qtype uint16) string {
 	// To fqdn.
 	qname = dnsmessage.CanonicalName(qname)
+	// '|' separates the question part of a cache key from the response scope
+	// (responseCacheKey, dnsCacheBaseKey), and it is a legal byte of a label. Spell it the
+	// way presentation format escapes a byte, so that the question part never contains the
+	// separator: otherwise a question for "victim.1|x.zone." is filed under the base key of
+	// ("victim.", A) and passes for DNS knowledge of a name that was never resolved.
+	if strings.IndexByte(qname, '|') >= 0 {
+		qname = strings.ReplaceAll(qname, "|", `\124`)
+	}
 	// Fast path: use pre-computed string for common qtypes
 	if s, ok := qtypeStrCache[qtype]; ok {
 		return qname + s
